@@ -18,7 +18,7 @@ META = {
     "rule": "case = two-sided history over disjoint objects (family DISJ: ownership by top-level entry of a synchronised "
             "base tree with nested folders; deletes, renames, moves, edits, mkdir/rmdir, isolated folder renames with "
             "children), flavour x shape round-robin, 4-12 ops; distinct = distinct case signature; non-trivial = >= 1 "
-            "engine write after the base tree.  plus family NEST (folder renames/moves on one side racing with file create/write/in-place rename/move-in inside them on the other side, id-stable providers, object-addressed ops, object-graph expectation).  thorough adds un-isolated folder renames / name re-use (attributed to K1/K2 or reported)",
+            "engine write after the base tree.  plus family SWAP (one side exchanges or rotates the names of 2-3 synchronised files through a temporary name in one window with no sync step in between, the other side creating/editing its own files); plus family NEST (folder renames/moves on one side racing with file create/write/in-place rename/move-in inside them on the other side, id-stable providers, object-addressed ops, object-graph expectation).  thorough adds un-isolated folder renames / name re-use (attributed to K1/K2 or reported)",
     "assumptions": ["expected tree = base with both sides' deltas applied on a plain dict model (possible because objects are disjoint)"],
 }
 
@@ -60,6 +60,18 @@ def shard(ctx, acc):
         acc.sample(W.brief_case(case))
         if probs:
             acc.violation(probs[0][0], probs[:4], case)
+    # SWAP: one side exchanges / rotates the names of synchronised files through a temporary name within one window while the
+    # other side works on files of its own.  HF by the letter; measured tolerated (0 failures in 24 000 cases on the pinned
+    # tree) as long as no sync step runs between the renames - hence the three schedule shapes without S in the gaps.
+    for i in F.indices(ctx, plan["cases"] // 6):
+        case = F.make_case(ctx.seed, PROP + "swap", i, families=("SWAP",), flavours=F.S.FLAVOURS_ALL,
+                           shapes=("burst", "intake", "starveS"), nops=(4, 10))
+        probs = run(case, acc)
+        if probs is None:
+            continue
+        acc.count("swap_cases")
+        if probs:
+            acc.violation("swap:" + probs[0][0], probs[:4], case)
     for i in F.indices(ctx, plan.get("seek", 0)):
         case = F.make_case(ctx.seed, PROP + "seek", i, families=("SDISJ",), flavours=("oo", "po", "pp", "op"), nops=(4, 9))
         hz, ks = F.classify(case)
